@@ -301,6 +301,8 @@ class World:
             self._emit_wire_compat(out)
         if self.cfg.get('storage_keys') and not reach:
             self._emit_storage_keys(out, mods)
+        if self.cfg.get('storage_keys_same') and not reach:
+            self._emit_storage_keys_same(out, mods)
         # module tree
         tree = {}
         for m in mods:
@@ -571,6 +573,36 @@ class World:
                       f'{{ reveal_strlit({la}); reveal_strlit({lb}); {hint} }}\n')
         out.w('} // verus!\n}\n')
         self.generated_storage_keys = {'handles': [f'{a} = {b} ({c})' for a, b, c in handles], 'pairs': n}
+
+    def _emit_storage_keys_same(self, out, mods):
+        """Migrations read an old layout under the key the new layout uses: the abstract store of this world hard-wires
+        which handles share a key.  One ground obligation per such pair: the two namespace literals are the same string."""
+        sk = self.cfg['storage_keys_same']
+        bymod = {m['mod']: m for m in mods if 'file' in m}
+        out.w('\n// ---- generated: handles of different layouts that must share a storage key ----\npub mod storage_key_same_obligations {\nuse vstd::prelude::*;\nverus! {\n')
+        n = 0
+        for grp in sk['groups']:
+            lits = []
+            for h in grp:
+                modp, name = h.rsplit('::', 1)
+                m = bymod.get(modp)
+                if m is None:
+                    raise Inconclusive(f'lost anchor: module {modp} of storage handle {h} is not in the world')
+                path = os.path.join(REPO, m['file'])
+                it = next((i for i in self.index[path]['items'] if i['kind'] == 'const' and i['name'] == name), None)
+                if it is None:
+                    raise Inconclusive(f'lost anchor: storage handle {h} not found in {m["file"]}')
+                ml = re.search(r'::\s*new\s*\(\s*("(?:[^"\\]|\\.)*")\s*\)\s*$', it['expr'].strip())
+                if not ml:
+                    raise Inconclusive(f'unsupported: the namespace of storage handle {h} is not a string literal: {it["expr"][:80]}')
+                lits.append((h, ml.group(1)))
+            for (ha, la), (hb, lb) in zip(lits, lits[1:]):
+                n += 1
+                labs = ' '.join(f'[{p_}.legacy-storage-key-{ha.rsplit("::", 1)[1]}]' for p_ in sk['labels'])
+                out.w(f'\n// {labs}  ({ha} vs {hb})\npub proof fn storage_key_same_{n}()\n    ensures {la}@ == {lb}@\n'
+                      f'{{ reveal_strlit({la}); reveal_strlit({lb}); }}\n')
+        out.w('} // verus!\n}\n')
+        self.generated_storage_keys_same = n
 
     def _emit_wire_compat(self, out):
         """C20, wire compatibility: for every prost message (struct) and oneof (enum) of the bindings that an
@@ -1486,7 +1518,7 @@ def assemble(world_name, features=(), outdir=None, force_stub=()):
             'degraded': w.degraded,
             'counters': counters, 'uncontracted': w.uncontracted, 'stubs': w.stubs, 'lemma_twins': w2.lemma_twins,
             'shim_discharged': getattr(w, 'shim_discharged', []), 'shim_blocks': getattr(w, 'shim_blocks', []), 'registry_crates': getattr(w, 'registry_crates', {}),
-            'generated': {'type_urls': getattr(w, 'generated_type_urls', None), 'wire_compat': getattr(w, 'generated_wire', None), 'storage_keys': getattr(w, 'generated_storage_keys', None)},
+            'generated': {'type_urls': getattr(w, 'generated_type_urls', None), 'wire_compat': getattr(w, 'generated_wire', None), 'storage_keys': getattr(w, 'generated_storage_keys', None), 'storage_keys_same': getattr(w, 'generated_storage_keys_same', None)},
             'unit_sha256': sha(main)}
     json.dump(meta, open(os.path.join(outdir, 'map.json'), 'w'), indent=1)
     return outdir, meta
